@@ -18,6 +18,8 @@
 -/
 import RotoV.Lemmas.ListRefine
 import RotoV.Lemmas.ListNested
+import RotoV.Lemmas.ListFor
+import RotoV.Lemmas.ListSelfEq
 
 namespace RotoV.C15
 open RotoV RotoV.ListM
@@ -25,16 +27,47 @@ open RotoV RotoV.ListM
 /-! ### T1 — refinement of shared vectors -/
 
 /-- T1 `refines_vec`. For every history that does not hit the capacity-overflow
-    panic (which `Vec` has as well): every operation returns what the same
-    operation returns on vectors shared between the handles (`capacity`'s
-    number is the one result a vector's contents do not determine: it is erased
-    here and characterised by `invariants` below), and the abstraction commutes
-    (`Rel`: same variables, live allocation ↦ its vector) at the end. -/
+    panic (which `Vec` has as well) and never compares a vector that holds a NaN
+    with itself (`NoReflShortcut`, a condition on the shared vectors alone; see
+    `eq_same_list_nan_differs` for what happens then): every operation returns
+    what the same operation returns on vectors shared between the handles
+    (`capacity`'s number is the one result a vector's contents do not
+    determine: it is erased here and characterised by `invariants` below), and
+    the abstraction commutes (`Rel`: same variables, live allocation ↦ its
+    vector) at the end. Element comparisons — `contains`, `index`, both `==` —
+    are `elemEq` on both sides: the identity on plain values, IEEE `==` on
+    floating-point elements (`0.0 == -0.0`, NaN equal to nothing). -/
 theorem refines_vec (sz n : Nat) (ops : List Op)
-    (hp : ∀ o ∈ run sz (St.init n) ops, o ≠ .fault .panic) :
+    (hp : ∀ o ∈ run sz (St.init n) ops, o ≠ .fault .panic)
+    (hq : NoReflShortcut (Spec.init n) ops) :
     List.zipWith eraseCap ops (run sz (St.init n) ops) = specRun (Spec.init n) ops ∧
       Rel (runSt sz (St.init n) ops) (specRunSt (Spec.init n) ops) :=
-  run_sim ops (Inv_init sz n) (Rel_init n) hp
+  run_sim ops (Inv_init sz n) (Rel_init n) hp hq
+
+/-- T1 without the second hypothesis: a history that never brings a value into
+    a list that is not equal to itself (no NaN among the arguments of `from` /
+    `push` — in particular every history over plain element types) refines the
+    shared vectors in full: no vector ever holds such an element (`SelfEq` is
+    kept by every operation of the specification), so the reflexive shortcut
+    never shows. -/
+theorem refines_vec_no_nan (sz n : Nat) (ops : List Op)
+    (hp : ∀ o ∈ run sz (St.init n) ops, o ≠ .fault .panic)
+    (hv : ∀ op ∈ ops, ∀ v ∈ opVals op, elemEq v v = true) :
+    List.zipWith eraseCap ops (run sz (St.init n) ops) = specRun (Spec.init n) ops ∧
+      Rel (runSt sz (St.init n) ops) (specRunSt (Spec.init n) ops) :=
+  refines_vec sz n ops hp (noRefl_of_selfEq ops (SelfEq_init n) hv)
+
+example : ∀ op ∈ [Op.fromVec 0 [1, f64Base + 0x8000000000000000], .push 0 7, .eq 0 0 false],
+    ∀ v ∈ opVals op, elemEq v v = true := by decide
+
+/-- `[0.0] == [-0.0]`, `[NaN] != [NaN]` (two lists), `contains` / `index` of `-0.0`
+    in `[1.5, 0.0]`: the element `==`, not the bytes -/
+example : run 8 (St.init 2) [.fromVec 0 [f64Base + 0], .fromVec 1 [f64Base + 0x8000000000000000], .eq 0 1 false,
+      .eq 1 0 true, .fromVec 0 [f64Base + 0x7FF8000000000000], .fromVec 1 [f64Base + 0x7FF8000000000000],
+      .eq 0 1 false, .eq 0 1 true, .contains 0 (f64Base + 0x7FF8000000000000),
+      .fromVec 0 [f64Base + 0x3FF8000000000000, f64Base + 0], .index 0 (f64Base + 0x8000000000000000)]
+    = [.unit, .unit, .bool true, .bool true, .unit, .unit, .bool false, .bool false, .bool false, .unit,
+       .opt (some 1)] := by decide
 
 example : run 8 (St.init 2) [.fromVec 0 [1, 2], .cloneH 1 0, .push 1 3, .get 0 2, .concat 0 0 1, .len 0]
     = [.unit, .unit, .unit, .opt (some 3), .unit, .nat 6] := by decide
@@ -86,13 +119,15 @@ theorem panic_only_when_huge (sz n : Nat) (ops : List Op) (op : Op)
     (h : (step sz (runSt sz (St.init n) ops) op).1 = .fault .panic) :
     2 ^ 63 < 2 * (runSt sz (St.init n) ops).live + opSize op := by
   have inv := Inv_runSt ops (Inv_init sz n)
-  rcases good_step inv (Rel_abs _) op with ⟨_, _, k, hk1, hk2⟩ | ⟨h1, _, _, _⟩
+  rcases good_step inv (Rel_abs _) op with ⟨_, _, k, hk1, hk2⟩ | ⟨h1 | ⟨_, h1⟩, _, _, _⟩
   · by_cases hb : k ≤ 2 ^ 63
     · have := nextPow2_le_of_le hb; omega
     · omega
   · rw [eraseCap_fault h] at h1
     have := specStep_fault_bad _ _ h1.symm
     cases this
+  · rw [eraseCap_fault h] at h1
+    cases h1
 
 example : (step 8 (St.init 1) (.fromVec 0 [1, 2, 3])).1 = .unit ∧ opSize (.fromVec 0 [1, 2, 3]) = 3 := by decide
 
@@ -329,12 +364,12 @@ theorem eq_terminates (sz n : Nat) (ops : List Op) (a b x y : Nat) (lx ly : RawL
     (hx : (runSt sz (St.init n) ops).getAlloc x = some lx)
     (hy : (runSt sz (St.init n) ops).getAlloc y = some ly) :
     step sz (runSt sz (St.init n) ops) (.eq a b typed) =
-      (.bool (decide (lx.elems = ly.elems)), runSt sz (St.init n) ops) := by
+      (.bool (if x = y then true else listEq lx.elems ly.elems), runSt sz (St.init n) ops) := by
   have inv := Inv_runSt ops (Inv_init sz n)
   have wx := (inv.raw x lx hx).1.wf
   have wy := (inv.raw y ly hy).1.wf
   have : stepE sz (runSt sz (St.init n) ops) (.eq a b typed) =
-      .ok (.bool (decide (lx.elems = ly.elems)), runSt sz (St.init n) ops) := by
+      .ok (.bool (if x = y then true else listEq lx.elems ly.elems), runSt sz (St.init n) ops) := by
     simp only [stepE, slot_ok hsa, slot_ok hsb]
     cases typed with
     | true =>
@@ -348,6 +383,47 @@ theorem eq_terminates (sz n : Nat) (ops : List Op) (a b x y : Nat) (lx ly : RawL
 example : run 8 (St.init 3) [.fromVec 0 [1], .fromVec 1 [1], .cloneH 2 0, .eq 0 1 true, .eq 0 2 true,
     .eq 0 0 true, .eq 1 0 false, .push 2 5, .eq 0 1 true]
     = [.unit, .unit, .unit, .bool true, .bool true, .bool true, .bool true, .unit, .bool false] := by decide
+
+/-- T4 for plain element values (integers, strings, tracked values, handles):
+    the answer is equality of the two sequences, also for the same list -/
+theorem eq_terminates_plain (sz n : Nat) (ops : List Op) (a b x y : Nat) (lx ly : RawList) (typed : Bool)
+    (hsa : (runSt sz (St.init n) ops).slots[a]? = some (some x))
+    (hsb : (runSt sz (St.init n) ops).slots[b]? = some (some y))
+    (hx : (runSt sz (St.init n) ops).getAlloc x = some lx)
+    (hy : (runSt sz (St.init n) ops).getAlloc y = some ly)
+    (hpl : ∀ e ∈ lx.elems, e < f64Base) :
+    step sz (runSt sz (St.init n) ops) (.eq a b typed) =
+      (.bool (decide (lx.elems = ly.elems)), runSt sz (St.init n) ops) :=
+  step_eq_ok (Inv_runSt ops (Inv_init sz n)) typed hsa hsb hx hy hpl
+
+example : ∀ e ∈ [1, 2, 3], e < f64Base := by decide
+
+/-- REFUTATION of "`==` is the vectors' `==`" for a list compared with itself:
+    in every reachable state, when the two handles hold the same list and the
+    list has an element that is not equal to itself (a NaN in a `List[f64]`),
+    both `==` answer `true` (the `Arc::ptr_eq` shortcut answers before any
+    element is looked at) while the shared vector compared with itself is
+    `false` (`[f64]: PartialEq` compares element by element and `NaN != NaN`;
+    `Rc<RefCell<Vec<f64>>>` has no pointer shortcut because `f64` is not `Eq`).
+    This is the only deviation from the vectors (`step_refines`). -/
+theorem eq_same_list_nan_differs (sz n : Nat) (ops : List Op) (a b x : Nat) (l : RawList) (typed : Bool)
+    (hsa : (runSt sz (St.init n) ops).slots[a]? = some (some x))
+    (hsb : (runSt sz (St.init n) ops).slots[b]? = some (some x))
+    (hx : (runSt sz (St.init n) ops).getAlloc x = some l)
+    (hnan : listEq l.elems l.elems = false) :
+    (step sz (runSt sz (St.init n) ops) (.eq a b typed)).1 = .bool true ∧
+      (specStep (absSpec (runSt sz (St.init n) ops)) (.eq a b typed)).1 = .bool false := by
+  constructor
+  · rw [eq_terminates sz n ops a b x x l l typed hsa hsb hx hx]
+    simp
+  · have rel := Rel_abs (runSt sz (St.init n) ops)
+    simp only [specStep, vec_ok rel hsa hx, vec_ok rel hsb hx, hnan]
+
+/-- the witness: `l = [NaN]; l == l` -/
+example : run 8 (St.init 2) [.fromVec 0 [f64Base + 0x7FF8000000000000], .cloneH 1 0, .eq 0 1 false, .eq 0 0 true]
+      = [.unit, .unit, .bool true, .bool true] ∧
+    specRun (Spec.init 2) [.fromVec 0 [f64Base + 0x7FF8000000000000], .cloneH 1 0, .eq 0 1 false, .eq 0 0 true]
+      = [.unit, .unit, .bool false, .bool false] := by decide
 
 /-- `concat` never dead-locks either, for any pair of operands (same, aliased,
     distinct): the only fault is the capacity overflow -/
@@ -374,10 +450,10 @@ element handles). -/
 theorem nested_contains_terminates (sz n : Nat) (ops : List Op) (typed : Bool)
     (elems : List Nat) (item : Nat) (cs : List (List Nat)) (ci : List Nat)
     (hi : (runSt sz (St.init n) ops).contents item = some ci)
-    (he : allContents (runSt sz (St.init n) ops) elems = some cs) :
+    (he : allContents (runSt sz (St.init n) ops) elems = some cs) (hpl : PlainLists cs) :
     containsN sz typed (runSt sz (St.init n) ops) elems item =
       (.bool (cs.contains ci), runSt sz (St.init n) ops) :=
-  containsN_ok (Inv_runSt ops (Inv_init sz n)) typed item hi elems cs he
+  containsN_ok (Inv_runSt ops (Inv_init sz n)) typed item hi elems cs he hpl
 
 example : (containsN 8 true (runSt 8 (St.init 3) [.fromVec 0 [1], .fromVec 1 [2], .fromVec 2 [2]]) [0, 1] 2).1
     = .bool true := by decide
@@ -386,10 +462,10 @@ example : (containsN 8 true (runSt 8 (St.init 3) [.fromVec 0 [1], .fromVec 1 [2]
 theorem nested_index_terminates (sz n : Nat) (ops : List Op) (typed : Bool)
     (elems : List Nat) (item : Nat) (cs : List (List Nat)) (ci : List Nat)
     (hi : (runSt sz (St.init n) ops).contents item = some ci)
-    (he : allContents (runSt sz (St.init n) ops) elems = some cs) :
+    (he : allContents (runSt sz (St.init n) ops) elems = some cs) (hpl : PlainLists cs) :
     indexN sz typed (runSt sz (St.init n) ops) elems item 0 =
       (.opt (firstIdxL ci cs 0), runSt sz (St.init n) ops) :=
-  indexN_ok (Inv_runSt ops (Inv_init sz n)) typed item hi elems cs 0 he
+  indexN_ok (Inv_runSt ops (Inv_init sz n)) typed item hi elems cs 0 he hpl
 
 example : (indexN 8 false (runSt 8 (St.init 3) [.fromVec 0 [1], .fromVec 1 [2], .fromVec 2 [2]]) [0, 1] 2 0).1
     = .opt (some 1) := by decide
@@ -399,10 +475,10 @@ example : (indexN 8 false (runSt 8 (St.init 3) [.fromVec 0 [1], .fromVec 1 [2], 
 theorem nested_eq_terminates (sz n : Nat) (ops : List Op) (typed : Bool)
     (as bs : List Nat) (ca cb : List (List Nat))
     (ha : allContents (runSt sz (St.init n) ops) as = some ca)
-    (hb : allContents (runSt sz (St.init n) ops) bs = some cb) :
+    (hb : allContents (runSt sz (St.init n) ops) bs = some cb) (hpl : PlainLists ca) :
     eqN sz typed (runSt sz (St.init n) ops) as bs =
       (.bool (decide (ca = cb)), runSt sz (St.init n) ops) :=
-  eqN_ok (Inv_runSt ops (Inv_init sz n)) typed as bs ca cb ha hb
+  eqN_ok (Inv_runSt ops (Inv_init sz n)) typed as bs ca cb ha hb hpl
 
 example : (eqN 8 true (runSt 8 (St.init 3) [.fromVec 0 [1], .fromVec 1 [2], .fromVec 2 [2]]) [0, 1] [0, 2]).1
     = .bool true := by decide
@@ -528,5 +604,105 @@ theorem typed_eq_witness_terminates :
     (match typedEq twoLists 0 1 with | .ok r => r.1 | .error f => .fault f) = .bool true := by decide
 
 example : twoLists.slot 0 = .ok 0 ∧ twoLists.slot 1 = .ok 1 := by decide
+
+/-! ### element equality is the element type's `==`, not the comparison of the bytes -/
+
+/-- tie obligation: in the source, each of the three element-comparison loops
+    — `RawList::contains`, `RawList::index`, `ErasedList::eq` — decides "equal"
+    by calling the element vtable's `eq_fn` on the element pointers and by
+    nothing else (the translator accepts exactly one loop of that shape per
+    function and no other `if` / `return`: a byte-wise fast path is an
+    extraction failure, another vtable function changes this table); the typed
+    `List<T>::eq` compares slices of `T` (`lock_facts_as_proved`). The model's
+    `elemEq` stands for that function. -/
+theorem elements_compared_by_eq_fn :
+    Gen.ListGuards.elemCompare =
+      [("RawList::contains", "eq_fn"), ("RawList::index", "eq_fn"), ("ErasedList::eq", "eq_fn")] := rfl
+
+example : Gen.ListGuards.elemCompare.length = 3 := rfl
+
+/-- `elemEq` is not the identity on representations: `0.0 == -0.0` (bits differ),
+    `NaN != NaN` (bits equal), and a list is equal to itself iff it holds no such
+    element -/
+theorem float_eq_is_not_bytes :
+    elemEq (f64Base + 0) (f64Base + 0x8000000000000000) = true ∧
+      elemEq (f64Base + 0x7FF8000000000000) (f64Base + 0x7FF8000000000000) = false ∧
+      (∀ xs, listEq xs xs = xs.all (fun e => elemEq e e)) :=
+  ⟨by decide, by decide, listEq_self⟩
+
+example : listEq [f64Base + 0x7FF8000000000000] [f64Base + 0x7FF8000000000000] = false := by decide
+
+/-- for plain element values — `u8`, `u64`, the ids of strings and tracked
+    values, handles of inner lists: everything below `2^64` — the comparisons of
+    the specification are the sequence functions: `==` is equality of the
+    sequences, `contains` is membership, `index` is the first position -/
+theorem plain_elements_compare_by_identity (xs ys : List Nat) (v : Nat)
+    (hx : ∀ x ∈ xs, x < f64Base) (hv : v < f64Base) :
+    listEq xs ys = decide (xs = ys) ∧ anyEq v xs = xs.contains v ∧
+      firstIdx v xs 0 = if xs.contains v then some (xs.idxOf v) else none := by
+  refine ⟨listEq_plain hx, anyEq_plain hv xs, ?_⟩
+  rw [firstIdx_plain hv xs 0]
+  simp
+
+example : listEq [1, 2] [1, 2] = true ∧ anyEq 2 [1, 2] = true ∧ firstIdx 2 [1, 2] 0 = some 1 := by decide
+
+/-! ### `for` walks the one vector the loop started on -/
+
+/-- tie obligation: what the MIR lowering of `for x in <e>` does with `<e>`
+    (Generated/ListFor, read off `Lowerer::for` in src/mir/lower.rs): evaluated
+    once, before the first iteration, into a variable of the loop's own; every
+    iteration calls `List.get` on a clone of that variable; the index starts at
+    0 and grows by 1 -/
+theorem for_lowering_as_modelled :
+    Gen.ListFor.iterableEvaluations = 1 ∧ Gen.ListFor.iterableInOwnVar = true ∧
+      Gen.ListFor.getOnCloneOfOwnVar = true ∧ Gen.ListFor.indexStart = 0 ∧ Gen.ListFor.indexStep = 1 := by
+  decide
+
+example : forOps 2 0 [[.cloneH 0 1], []] =
+    [.cloneH 2 0, .get 2 0, .cloneH 0 1, .get 2 1, .get 2 2, .dropH 2] := by decide
+
+/-- In every reachable state: once the loop has taken its own handle
+    (`cloneH tmp h`), NO sequence of operations that does not name `tmp` as a
+    destination — in particular none that assigns another list, a
+    concatenation or a new list to the variable `h` the loop was written over,
+    or drops `h` — changes which list the loop's `get`s read: the variable the
+    `get`s go through (`forWalkVar`, by the generated facts the loop's own)
+    still refers to the list `a` that `h` referred to when the loop started,
+    that list is alive, and `get i` answers its current `i`-th element (so
+    pushes and swaps through aliases ARE seen, rebinding a name is not). -/
+theorem for_walks_the_list_it_started_on (sz n : Nat) (ops body : List Op) (tmp h a i : Nat)
+    (hs : (runSt sz (St.init n) ops).slots[h]? = some (some a))
+    (ht : tmp < (runSt sz (St.init n) ops).slots.length)
+    (hok : (step sz (runSt sz (St.init n) ops) (.cloneH tmp h)).1 ≠ .fault .panic)
+    (hb : ∀ op ∈ body, op.writes tmp = false) :
+    (runSt sz (step sz (runSt sz (St.init n) ops) (.cloneH tmp h)).2 body).slots[forWalkVar tmp h]? = some (some a) ∧
+      ∃ l, (runSt sz (step sz (runSt sz (St.init n) ops) (.cloneH tmp h)).2 body).getAlloc a = some l ∧
+        step sz (runSt sz (step sz (runSt sz (St.init n) ops) (.cloneH tmp h)).2 body) (.get (forWalkVar tmp h) i) =
+          (.opt l.elems[i]?, runSt sz (step sz (runSt sz (St.init n) ops) (.cloneH tmp h)).2 body) := by
+  have hw : forWalkVar tmp h = tmp := by
+    have ⟨h1, h2, h3, _, _⟩ := for_lowering_as_modelled
+    simp [forWalkVar, h1, h2, h3]
+  rw [hw]
+  have inv0 := Inv_runSt ops (Inv_init sz n)
+  have inv1 := Inv_step inv0 (.cloneH tmp h)
+  have inv2 := Inv_runSt body inv1
+  have hslot : (runSt sz (step sz (runSt sz (St.init n) ops) (.cloneH tmp h)).2 body).slots[tmp]? = some (some a) := by
+    rw [runSt_slot_frame body inv1 tmp hb]
+    exact cloneH_binds inv0 hs ht hok
+  refine ⟨hslot, ?_⟩
+  have ⟨l, hl⟩ := inv2.slot tmp a hslot
+  refine ⟨l, hl, ?_⟩
+  have hwf := (inv2.raw a l hl).1.wf
+  have : stepE sz (runSt sz (step sz (runSt sz (St.init n) ops) (.cloneH tmp h)).2 body) (.get tmp i) =
+      .ok (.opt l.elems[i]?, runSt sz (step sz (runSt sz (St.init n) ops) (.cloneH tmp h)).2 body) := by
+    refine withLock_read' inv2 hslot hl ?_
+    simp only [rawGet_eq hwf]
+  generalize runSt sz (step sz (runSt sz (St.init n) ops) (.cloneH tmp h)).2 body = s' at this ⊢
+  simp only [step, this]
+
+/-- the loop of the seeded rebinding: `for x in l { … l = other … }` over `[1, 2, 3]` /
+    `[7, 7, 7, 7]` visits 1, 2, 3 -/
+example : run 8 (St.init 3) ([.fromVec 0 [1, 2, 3], .fromVec 1 [7, 7, 7, 7]] ++ forOps 2 0 [[.cloneH 0 1], [], []])
+    = [.unit, .unit, .unit, .opt (some 1), .unit, .opt (some 2), .opt (some 3), .opt none, .unit] := by decide
 
 end RotoV.C15
